@@ -1,33 +1,16 @@
-"""Per-property configuration of the driver: parts (package, test regexp, race), evidence rule text,
-race attribution tables (DESIGN §2.3) and the minimum the monitors must have observed."""
+"""Driver configuration: one module per property under conf/ (CHECK = parts, evidence rule, race
+attribution tables of DESIGN §2.3, observation minimums; META = manifest texts)."""
+import glob, importlib.util, os
 
-ROSMAR = "backing store is the in-memory rosmar bucket (walrus successor) shipped with the repository, Community Edition build; Couchbase Server only behaviour is not exercised"
+ROSMAR = "backing store is the in-memory rosmar bucket shipped with the repository, Community Edition build; Couchbase Server only behaviour is not exercised"
 
-CHECKS = {
-    "C20": {
-        "level": "exploration",
-        "exhaustive": True,
-        "rule": "all SequenceID structs with components 0..N (N=6 quick, 9 thorough) plus random structs with 2^32..2^64-1 components for the round trips; distinct_nontrivial = distinct canonical token strings + distinct generated parser inputs; order laws over all pairs/triples of canonical tokens; emitted tokens of real changes responses (feed part)",
-        "parts": [
-            {"name": "tokens", "pkg": "db", "run": "^TestVerif_C20_Tokens$", "timeout_q": 300, "timeout_t": 1800},
-            {"name": "parser", "pkg": "db", "run": "^TestVerif_C20_Parser$", "timeout_q": 300, "timeout_t": 1800},
-        ],
-        "min_evals": 1000,
-        "assumptions": ["pure functions of db/sequence_id.go driven in-package", ROSMAR],
-    },
-    "C07": {
-        "level": "exploration",
-        "rule": "cases = (scripts for 1..3 real sequenceAllocators sharing one counter, batch growth on/off, schedule of their storage steps); systematic part enumerates schedules depth-first under a preemption bound, random part draws scripts+schedules from the seed; distinct_nontrivial = distinct (scripts, schedule fingerprint) with >= 2 context switches between allocators or >= 1 unused-sequence publication",
-        "parts": [
-            {"name": "alloc-systematic", "pkg": "db", "run": "^TestVerif_C07_AllocSystematic$", "timeout_q": 400, "timeout_t": 2400},
-            {"name": "alloc-random", "pkg": "db", "run": "^TestVerif_C07_AllocRandom$", "timeout_q": 400, "timeout_t": 2400},
-            {"name": "alloc-race", "pkg": "db", "race": True, "run": "^TestVerif_C07_AllocRace$", "timeout_q": 400, "timeout_t": 2400},
-            {"name": "db", "pkg": "db", "race": True, "run": "^TestVerif_C07_DB$", "timeout_q": 500, "timeout_t": 3000},
-            {"name": "retry-chain", "pkg": "db", "run": "^TestVerif_C07_RetryChain$", "timeout_q": 400, "timeout_t": 1200},
-        ],
-        "min_evals": 50,
-        "race_files": ["db/sequence_allocator.go"],
-        "race_state": ["s.last", "s.max", "s.sequenceBatchSize", "sequence =", "s.terminator"],
-        "assumptions": ["idle release is invoked explicitly (timer set to 1h) in the scheduled parts; the real timer runs in the race part", "storage faults are injected only on the counter increment: a failed unused-sequence publication is documented to fall back to skipped-sequence handling", ROSMAR],
-    },
-}
+CHECKS, META = {}, {}
+for _p in sorted(glob.glob(os.path.join(os.path.dirname(os.path.abspath(__file__)), "conf", "C*.py"))):
+    _pid = os.path.splitext(os.path.basename(_p))[0]
+    _spec = importlib.util.spec_from_file_location("conf_" + _pid, _p)
+    _m = importlib.util.module_from_spec(_spec)
+    _spec.loader.exec_module(_m)
+    CHECKS[_pid] = _m.CHECK
+    META[_pid] = _m.META
+    if ROSMAR not in CHECKS[_pid].setdefault("assumptions", []):
+        CHECKS[_pid]["assumptions"].append(ROSMAR)
